@@ -4,6 +4,22 @@ import json, os
 V = os.path.dirname(os.path.dirname(os.path.abspath(__file__)))
 
 CHECKS = {
+    'C11': ('MIR dominator/guard rules on the group-data function: scan-before-push, density-before-Ok, no panic path (rustc_private driver)',
+            'Structural clauses decided on every path of the function(s) that construct DuplicateBinding and of the top-level function: each push onto a group list is dominated by the false edge of a whole-list scan comparing binding_index, whose true edge returns DuplicateBinding{binding}; list = map entry keyed by the same ResourceBinding.group; loop over all globals unfiltered; the single Ok(groups: BTreeMap) is dominated by a recognised density test keys == 0..len whose other edge returns NonConsecutiveBindGroups; NonConsecutive only after the scan loop; no panic-capable callee / checked arithmetic; error returned unchanged before any emission. Decides the control/data-flow shape, not the interplay with naga\'s validator.',
+            'Trusted: rustc MIR + Instance resolution; naga handles index their own module; recognised density idioms are the two listed (another equivalent form is reported as undecided).',
+            'DESIGN.md section 3 C11'),
+    'C17': ('MIR dominance/taint rules on the top-level function and the four diagnostic helpers (rustc_private driver)',
+            'Decided on every path: parse_str receives the caller\'s text unchanged; its success edge dominates all generation and validator calls; nothing panic-capable before it or on the error path; ParseError/ValidationError are built from the very error values; with validate=Some the validator\'s success edge dominates all generation calls and nothing runs before the gate; the validator\'s Ok value is dropped, options.validate is read only at the gate, the module is never mutably borrowed (so validation cannot change the output); the emit_* helpers dispatch to naga\'s same-named renderer with the caller\'s source and contain no panic-capable callee.',
+            'Trusted: naga front end / validator / diagnostic renderer do not panic (library behaviour, not analysed).',
+            'DESIGN.md section 3 C17'),
+    'C18': ('whole-crate effect discipline over resolved callees in MIR: hash-order iteration, ambient input, retained state, gated process spawn',
+            'Decided for every resolved call site and static of the crate: hash containers are only used for membership (iteration accepted only into order-insensitive consumers); no env/time/fs/net/thread/random/pointer-address input in code reachable from the entry points; no static mut / interior-mutable static / thread-local; std::process only behind the rustfmt-gated call site. These are necessary and (given deterministic dependencies) sufficient structural conditions for the output to be a function of (source, include path, options).',
+            'Trusted: determinism of naga, syn, prettyplease and of rustfmt itself; no hidden global state in dependencies.',
+            'DESIGN.md section 3 C18'),
+    'C19': ('MIR rules on the formatter functions: same tokens to both printers, no panic-capable callee, stdout use dominated by success/non-empty/write checks, identity text flow',
+            'Decided on every path of the functions behind the rustfmt-gated call: both printers get the same TokenStream local and nothing else happens in the two arms; no unwrap/expect/indexing/explicit panic; the captured stdout is only used under ExitStatus::success() && non-empty && write outcome checked; the returned text derives only by identity-like operations from the token string or the captured stdout (every fallback is the same program). Timing, slow formatters and pipe deadlocks are not decided (OS scheduling).',
+            'Trusted: std::process/OS pipe semantics; rustfmt and prettyplease preserve the token sequence.',
+            'DESIGN.md section 3 C19'),
     # id: (technique, level text, level note, design ref)
     'C20': ('MIR call-graph SCCs + dominator rule: arena-following recursion must be visited-set guarded (rustc_private driver)',
             'Structural clause decided for every recursive call site of the crate (resolved MIR, all paths): un-memoised recursion along shared arena handles is the only way the generator can multiply work with call depth / nesting; the rule demands a dominating visited-set branch keyed by the followed handle (or a single recursive call per activation) and forbids shrinking the set. Decides the shape of the recursion, not wall-clock time.',
